@@ -374,7 +374,8 @@ class FsShim:
     def unowned_events(self):
         """Audited mutating events on sandbox paths that no shim operation
         accounts for (must be empty, else the seams do not own the run)."""
-        kinds = {"open-w": ("open-", "os.open-w"), "os.remove": ("remove",),
+        kinds = {"open-w": ("open-", "os.open-w"),
+                 "open-create": ("open-", "os.open-w"), "os.remove": ("remove",),
                  "os.rename": ("rename", "replace"), "os.mkdir": ("mkdir",),
                  "os.rmdir": ("rmdir",), "os.truncate": ("truncate",),
                  "os.link": ("link",), "os.symlink": ("symlink",),
